@@ -440,3 +440,25 @@ pub fn gen_codec(seed: u64, n: usize) -> Vec<Scenario> {
         })
         .collect()
 }
+
+/// Malformed-input family (C04, full stack): mutated and truncated copies of valid responses reach the
+/// running tracer through the real Channel and Strategy in every configuration cell.
+pub fn gen_fuzzloop(seed: u64, n: usize) -> Vec<Scenario> {
+    let mut v = gen_loop(seed ^ 0x0404, n, "fuzzloop");
+    let mut rng = StdRng::seed_from_u64(seed ^ 0x5eed_0004);
+    for (i, sc) in v.iter_mut().enumerate() {
+        let cell = CELLS[i % CELLS.len()];
+        sc.proto = cell.0.into();
+        sc.strat = cell.1.into();
+        sc.ports = cell.2.into();
+        sc.privileged = true;
+        sc.fam = if (i / CELLS.len()) % 2 == 0 { 4 } else { 6 };
+        sc.ext = rng.random_bool(0.5);
+        sc.noise.mutant_pct = 80;
+        sc.noise.garbage_pct = 20;
+        sc.noise.never_pct = 10;
+        sc.max_rounds = 6;
+        sc.snap = "lite".into();
+    }
+    v
+}
